@@ -36,7 +36,7 @@ CHECKS['C02'] = dict(
    note=PROTO_NOTE, technique='Coq proof (ordering invariants over both machines) + differential correspondence', ref='§5, §6 C02')
 CHECKS['C05'] = dict(
    text="Theorems for every item list: a '??' source never pushes anything; an ephemeral request never rewinds/fast-forwards/discards; the publish gate of a non-balanced "
-        'publisher ignores ephemeral clients, and on a load-balancing publisher an idle listener never vetoes its endpoint (C05_balanced_listener_never_vetoes); machines compared with the real classes; all-or-nothing and ordering of ephemeral portions by oracle.',
+        'publisher ignores ephemeral clients, and on a load-balancing publisher an idle listener never vetoes its endpoint (C05_balanced_listener_never_vetoes); the verdict is the verdict on the synchronized clients alone and a listener that leaves with CLOSE leaves the decision as it was (C05_verdict_ignores_listeners, C05_listener_leaving_keeps_decision); machines compared with the real classes; all-or-nothing and ordering of ephemeral portions by oracle.',
    note=PROTO_NOTE, technique='Coq proof (trace property over all runs; gate independence lemma) + differential correspondence', ref='§5, §6 C05')
 CHECKS['C07'] = dict(
    text='Theorems for every item list: a balanced publisher writes each frame to exactly one branch and un-requests only that branch; the rejoined stream is strictly increasing; '
@@ -88,7 +88,7 @@ CHECKS['C03'] = dict(
    technique='Coq proof (refinement of the receiver machine to a three-counter abstract consumer; contract lemmas over the glue and sender machines) + differential correspondence + pipeline-mode exploration against a functional reference', ref='§5, §6 C03')
 CHECKS['C04'] = dict(
    text='Theorems: a publish un-requests every client it is sent to, the gate opens only when every tracked synchronized client has asked, clients leave the wait set only by CLOSE/timeout, a receiver '
-        'issues requests only from recv(); from any point of any run the publishes that still include a consumer are at most one plus its requests already on the wire (C04_stall_bound); machines compared with the real classes; stalled-consumer pipelines of real filters measured in pipeline mode (bounded, flat in run length).',
+        'issues requests only from recv(); from any point of any run the publishes that still include a consumer are at most one plus its requests already on the wire (C04_stall_bound); the consumer sends a source at most one message per step and only on an empty poll, an out-of-band message or destroy(), so over any run its requests number at most those steps (C04_request_budget); machines compared with the real classes; stalled-consumer pipelines of real filters measured in pipeline mode (bounded, flat in run length).',
    note=PROTO_NOTE + ' The schedule-independent credit bound over the network fragment is not proved (partial).',
    technique='Coq proof (local flow-control lemmas) + differential correspondence + pipeline-mode exploration', ref='§5, §6 C04')
 CHECKS['C06'] = dict(
